@@ -3,36 +3,355 @@
 Require Import Capp.Base Capp.Spec Capp.UtMap Capp.UtMapFacts Capp.RrLit Capp.LruLit Capp.UmLit.
 From Coq Require Import Strings.String.
 
+(* ------------------------------------------------------------------------------------ *)
+(* association lists (any key type)                                                      *)
+(* ------------------------------------------------------------------------------------ *)
+Section AssocMore.
+  Context {K : Type} `{EqDec K} {A : Type}.
+  Local Open Scope list_scope.
+  Local Open Scope nat_scope.
+
+  Lemma u_assoc_setk_same : forall (k : K) (a : A) (l : list (K * A)),
+      assoc k (setk k a l) = match assoc k l with Some _ => Some a | None => None end.
+  Proof.
+    intros k a l. induction l as [|[k' a'] r IH]; simpl; [reflexivity|].
+    destruct (Base.eqb k k') eqn:E; simpl; rewrite E; [reflexivity | exact IH].
+  Qed.
+
+  Lemma u_assoc_setk_other : forall (k k0 : K) (a : A) (l : list (K * A)),
+      k <> k0 -> assoc k (setk k0 a l) = assoc k l.
+  Proof.
+    intros k k0 a l N. induction l as [|[k' a'] r IH]; simpl; [reflexivity|].
+    destruct (Base.eqb_spec k0 k') as [E|N'].
+    - subst k'. simpl. rewrite (eqb_ne k k0 N). reflexivity.
+    - simpl. rewrite IH. reflexivity.
+  Qed.
+
+  Lemma u_keys_setk : forall (k : K) (a : A) (l : list (K * A)), keys (setk k a l) = keys l.
+  Proof.
+    intros k a l. induction l as [|[k' a'] r IH]; simpl; [reflexivity|].
+    destruct (Base.eqb k k'); simpl; [reflexivity | f_equal; exact IH].
+  Qed.
+
+  Lemma u_keys_app : forall (l l' : list (K * A)), keys (l ++ l') = keys l ++ keys l'.
+  Proof. intros l l'. unfold keys. apply map_app. Qed.
+
+  Lemma u_length_keys : forall (l : list (K * A)), List.length (keys l) = List.length l.
+  Proof. intros l. unfold keys. apply map_length. Qed.
+
+  Lemma u_remk_notin_id : forall (k : K) (l : list (K * A)), ~ In k (keys l) -> remk k l = l.
+  Proof.
+    intros k l. induction l as [|[k' a] r IH]; simpl; intros NI; [reflexivity|].
+    destruct (Base.eqb_spec k k') as [E|N]; [exfalso; apply NI; left; congruence|].
+    f_equal. apply IH. intros I; apply NI; right; exact I.
+  Qed.
+
+  Lemma u_assoc_in_pair : forall (k : K) (a : A) (l : list (K * A)), assoc k l = Some a -> In (k, a) l.
+  Proof.
+    intros k a l. induction l as [|[k' a'] r IH]; simpl; intros E; [discriminate|].
+    destruct (Base.eqb_spec k k') as [Ek|Nk].
+    - inversion E; subst. left; reflexivity.
+    - right. apply IH. exact E.
+  Qed.
+
+  Lemma u_in_pair_keys : forall (k : K) (a : A) (l : list (K * A)), In (k, a) l -> In k (keys l).
+  Proof. intros k a l I. unfold keys. apply in_map_iff. exists (k, a). split; [reflexivity | exact I]. Qed.
+
+  Lemma u_in_keys_remk : forall (k k' : K) (l : list (K * A)),
+      In k' (keys l) -> k' <> k -> In k' (keys (remk k l)).
+  Proof.
+    intros k k' l I N. apply assoc_keys. rewrite assoc_remk_other by exact N.
+    apply assoc_keys. exact I.
+  Qed.
+
+  Lemma u_length_remk_S : forall (k : K) (l : list (K * A)) i, NoDup (keys l) -> assoc k l = Some i ->
+      S (List.length (remk k l)) = List.length l.
+  Proof.
+    intros k l i. induction l as [|[k' a] r IH]; simpl; intros N E; [discriminate|].
+    inversion N as [|x r' Hni Hnd]; subst.
+    destruct (Base.eqb_spec k k') as [Ek|Nk].
+    - subst k'. rewrite u_remk_notin_id by exact Hni. reflexivity.
+    - simpl. f_equal. apply IH; assumption.
+  Qed.
+
+  Lemma u_nodup_app_r : forall (a b : list A), NoDup (a ++ b) -> NoDup b.
+  Proof.
+    induction a as [|y r IH]; simpl; intros b ND; [exact ND|].
+    inversion ND; subst. apply IH. assumption.
+  Qed.
+End AssocMore.
+
+(* ------------------------------------------------------------------------------------ *)
+(* the std::list model: splice to end / prev(end()) / remove                             *)
+(* ------------------------------------------------------------------------------------ *)
+Section StlMore.
+  Local Open Scope list_scope.
+  Local Open Scope nat_scope.
+
+  Lemma u_mem_nat_In : forall n l, mem_nat n l = true <-> In n l.
+  Proof.
+    intros n l. induction l as [|x r IH]; simpl.
+    - split; [discriminate|tauto].
+    - rewrite orb_true_iff, IH, Nat.eqb_eq.
+      split; intros [E|I]; [left; congruence|right; exact I|left; congruence|right; exact I].
+  Qed.
+
+  Lemma u_insert_before_End : forall n l, insert_before End n l = l ++ [n].
+  Proof. intros n l. induction l as [|x r IH]; simpl; [reflexivity|]. rewrite IH. reflexivity. Qed.
+
+  Lemma u_before_End_snoc : forall l n, before End (l ++ [n]) = Some n.
+  Proof.
+    induction l as [|x r IH]; intros n; [reflexivity|].
+    destruct r as [|y t]; [reflexivity|].
+    change (before End (y :: (t ++ [n])) = Some n). exact (IH n).
+  Qed.
+
+  Lemma u_prev_end_snoc : forall r n, l_prev (r ++ [n]) End = Ok (It n).
+  Proof.
+    intros r n. unfold l_prev. simpl valid_it. cbv iota.
+    assert (E : iter_eqb End (l_begin (r ++ [n])) = false) by (destruct r; reflexivity).
+    rewrite E, u_before_End_snoc. reflexivity.
+  Qed.
+
+  Lemma u_splice_end : forall l n, In n l -> l_splice l End (It n) = Ok (remove_nat n l ++ [n]).
+  Proof.
+    intros l n I. unfold l_splice. rewrite (proj2 (u_mem_nat_In n l) I). simpl.
+    rewrite u_insert_before_End. reflexivity.
+  Qed.
+
+  Lemma u_remove_nat_notin : forall n l, ~ In n l -> remove_nat n l = l.
+  Proof.
+    intros n l. induction l as [|x r IH]; simpl; intros NI; [reflexivity|].
+    destruct (Nat.eqb_spec n x) as [E|N]; [exfalso; apply NI; left; congruence|].
+    f_equal. apply IH. intros I. apply NI. right. exact I.
+  Qed.
+
+  Lemma u_in_remove_nat : forall n l m, NoDup l -> (In m (remove_nat n l) <-> In m l /\ m <> n).
+  Proof.
+    intros n l m. induction l as [|x r IH]; simpl; intros ND; [tauto|].
+    inversion ND as [|y t NI ND']; subst.
+    destruct (Nat.eqb_spec n x) as [E|N].
+    - subst x. split.
+      + intros I. split; [right; exact I|]. intros E. subst m. contradiction.
+      + intros [[E|I] Nm]; [congruence|exact I].
+    - simpl. rewrite (IH ND'). split.
+      + intros [E|[I Nm]]; [subst x; split; [left; reflexivity|congruence]|split; [right; exact I|exact Nm]].
+      + intros [[E|I] Nm]; [left; exact E|right; split; assumption].
+  Qed.
+
+  Lemma u_nodup_remove_nat : forall n l, NoDup l -> NoDup (remove_nat n l).
+  Proof.
+    intros n l. induction l as [|x r IH]; simpl; intros ND; [constructor|].
+    inversion ND as [|y t NI ND']; subst.
+    destruct (Nat.eqb_spec n x) as [E|N]; [exact ND'|].
+    constructor; [|apply IH; exact ND'].
+    intros I. apply (u_in_remove_nat n r x ND') in I. tauto.
+  Qed.
+End StlMore.
+
+(* ------------------------------------------------------------------------------------ *)
+(* Forall2                                                                               *)
+(* ------------------------------------------------------------------------------------ *)
+Section F2.
+  Context {A B : Type}.
+  Local Open Scope list_scope.
+
+  Lemma F2_in_l : forall (P : A -> B -> Prop) l xs a, Forall2 P l xs -> In a l -> exists b, In b xs /\ P a b.
+  Proof.
+    intros P l xs a F. induction F as [|a0 b0 l' xs' P0 F IH]; simpl; intros I; [contradiction|].
+    destruct I as [E|I].
+    - subst a0. exists b0. split; [left; reflexivity | exact P0].
+    - destruct (IH I) as (b & Ib & Pb). exists b. split; [right; exact Ib | exact Pb].
+  Qed.
+
+  Lemma F2_in_r : forall (P : A -> B -> Prop) l xs b, Forall2 P l xs -> In b xs -> exists a, In a l /\ P a b.
+  Proof.
+    intros P l xs b F. induction F as [|a0 b0 l' xs' P0 F IH]; simpl; intros I; [contradiction|].
+    destruct I as [E|I].
+    - subst b0. exists a0. split; [left; reflexivity | exact P0].
+    - destruct (IH I) as (a & Ia & Pa). exists a. split; [right; exact Ia | exact Pa].
+  Qed.
+
+  Lemma F2_weaken_in : forall (P Q : A -> B -> Prop) l xs, Forall2 P l xs ->
+      (forall a b, In a l -> In b xs -> P a b -> Q a b) -> Forall2 Q l xs.
+  Proof.
+    intros P Q l xs F. induction F as [|a0 b0 l' xs' P0 F IH]; intros W; constructor.
+    - apply W; [left; reflexivity | left; reflexivity | exact P0].
+    - apply IH. intros a b Ia Ib Pab. apply W; [right; exact Ia | right; exact Ib | exact Pab].
+  Qed.
+
+  Lemma F2_len : forall (P : A -> B -> Prop) l xs, Forall2 P l xs -> List.length l = List.length xs.
+  Proof. intros P l xs F. induction F; simpl; [reflexivity | f_equal; assumption]. Qed.
+End F2.
+
+Section F2Remove.
+  Context {K : Type} `{EqDec K} {A : Type}.
+  Local Open Scope list_scope.
+
+  (* removing the node n and the entry of key k, which sit at the same position *)
+  Lemma F2_remove_gen : forall (P Q : nat -> K * A -> Prop) n k l xs,
+      Forall2 P l xs -> NoDup l -> NoDup (keys xs) ->
+      (forall a b, In a l -> In b xs -> P a b -> (a = n <-> fst b = k)) ->
+      (forall a b, In a l -> In b xs -> P a b -> a <> n -> fst b <> k -> Q a b) ->
+      Forall2 Q (remove_nat n l) (remk k xs).
+  Proof.
+    intros P Q n k l xs F. induction F as [|a0 b0 l' xs' P0 F IH]; intros NDl NDx Hiff HQ; simpl.
+    - constructor.
+    - inversion NDl as [|x1 t1 NI1 ND1]; subst.
+      destruct b0 as [kb vb]. simpl in NDx. inversion NDx as [|x2 t2 NI2 ND2]; subst.
+      assert (IH' : Forall2 Q (remove_nat n l') (remk k xs')).
+      { apply IH; [exact ND1 | exact ND2 | |].
+        - intros a b Ia Ib Pab. apply Hiff; [right; exact Ia | right; exact Ib | exact Pab].
+        - intros a b Ia Ib Pab. apply HQ; [right; exact Ia | right; exact Ib | exact Pab]. }
+      pose proof (Hiff a0 (kb, vb) (or_introl eq_refl) (or_introl eq_refl) P0) as Hh. simpl in Hh.
+      destruct (Nat.eqb_spec n a0) as [En|Nn]; destruct (Base.eqb_spec k kb) as [Ek|Nk].
+      + subst a0 kb. rewrite (u_remove_nat_notin n l' NI1) in IH'. exact IH'.
+      + exfalso. apply Nk. symmetry. apply Hh. symmetry. exact En.
+      + exfalso. apply Nn. symmetry. apply Hh. symmetry. exact Ek.
+      + constructor; [|exact IH'].
+        apply HQ; [left; reflexivity | left; reflexivity | exact P0 | congruence | simpl; congruence].
+  Qed.
+End F2Remove.
+
 Section UmLitFacts.
   Context {K V : Type} `{EqDec K}.
+  Local Open Scope list_scope.
+  Local Open Scope nat_scope.
 
-  Theorem ul_rep_init : forall ttl, ul_rep (K := K) (V := V) (uml_init ttl) (um_init ttl).
-  Admitted.
+  (* ---------------- the working form of the representation ---------------- *)
+  (* node n is the list node of the entry x, and the map entry of x's key points back at n *)
+  Definition cellr (nodes : list (nat * @tnode K)) (m : list (K * (V * option nat)))
+             (n : nat) (x : K * (V * Z)) : Prop :=
+    assoc n nodes = Some {| tn_expire := snd (snd x); tn_keyed := fst x |} /\
+    assoc (fst x) m = Some (fst (snd x), Some n).
 
-  Theorem ul_step_refines : forall t (l : uml K V) (s : um K V) o now rnd,
-      um_inv t s -> (t <= now)%Z -> ul_rep l s ->
-      exists l', ul_step l o now rnd = Ok (l', snd (um_step s o now rnd)) /\
-                 ul_rep l' (fst (um_step s o now rnd)) /\ um_inv now (fst (um_step s o now rnd)).
-  Admitted.
+  Definition rep2 (l : uml K V) (s : um K V) : Prop :=
+    ul_ttl l = um_ttl s /\
+    NoDup (ul_list l) /\ NoDup (keys (ul_map l)) /\ NoDup (keys (ul_nodes l)) /\
+    (forall n, In n (ul_list l) <-> In n (keys (ul_nodes l))) /\ (forall n, In n (ul_list l) -> n < ul_next l) /\
+    Forall2 (cellr (ul_nodes l) (ul_map l)) (ul_list l) (um_list s) /\
+    incl (keys (ul_map l)) (keys (um_list s)) /\
+    NoDup (keys (um_list s)).
 
-  Fixpoint ul_run (l : uml K V) (h : list (ev K V)) : res (uml K V * list (ret K V)) :=
-    match h with
-    | [] => Ok (l, [])
-    | e :: r => do x <- ul_step l (e_op e) (e_now e) (e_rnd e);
-                let '(l1, y) := x in
-                do z <- ul_run l1 r; let '(l2, ys) := z in Ok (l2, y :: ys)
-    end.
+  Lemma cellr_key_iff : forall nodes m n x a b,
+      cellr nodes m n x -> cellr nodes m a b -> (a = n <-> fst b = fst x).
+  Proof.
+    intros nodes m n x a b [N1 N2] [A1 A2]. split; intro E.
+    - subst a. rewrite N1 in A1. inversion A1. reflexivity.
+    - rewrite E in A2. rewrite N2 in A2. inversion A2. reflexivity.
+  Qed.
 
-  Theorem ul_no_UB_on_any_history : forall ttl h,
-      (0 <= ttl)%Z -> mono_from 0 h ->
-      exists l', ul_run (uml_init ttl) h = Ok (l', snd (run um_step (um_init ttl) h)) /\
-                 ul_rep l' (fst (run um_step (um_init ttl) h)).
-  Admitted.
+  Lemma cellr_entry : forall (l : uml K V) n x, cellr (ul_nodes l) (ul_map l) n x -> ul_entry l n = Some x.
+  Proof.
+    intros l n [k [v e]] [C1 C2]. simpl in *. unfold ul_entry. rewrite C1. simpl. rewrite C2. reflexivity.
+  Qed.
 
-  (* one value cell per index entry, one list node per index entry: nothing leaks, nothing is
-     destroyed twice *)
-  Theorem ul_cells_match_entries : forall ttl h l' rs,
-      (0 <= ttl)%Z -> mono_from 0 h -> ul_run (uml_init ttl) h = Ok (l', rs) ->
-      List.length (ul_map l') = List.length (ul_list l') /\ List.length (ul_nodes l') = List.length (ul_list l').
-  Admitted.
+  Lemma F2_cellr_entries : forall (l : uml K V) ns xs,
+      Forall2 (cellr (ul_nodes l) (ul_map l)) ns xs -> map (ul_entry l) ns = map (@Some (K * (V * Z))) xs.
+  Proof.
+    intros l ns xs F. induction F as [|a b ns' xs' C F IH]; simpl; [reflexivity|].
+    rewrite (cellr_entry l a b C), IH. reflexivity.
+  Qed.
+
+  Lemma rep2_keys_map : forall l s, rep2 l s -> forall k, In k (keys (um_list s)) -> In k (keys (ul_map l)).
+  Proof.
+    intros l s (_ & _ & _ & _ & _ & _ & F & _ & _) k I.
+    unfold keys in I. apply in_map_iff in I. destruct I as (x & Ex & Ix).
+    destruct (F2_in_r _ _ _ _ F Ix) as (n & _ & _ & C2). subst k.
+    apply assoc_keys. rewrite C2. discriminate.
+  Qed.
+
+  Lemma rep2_len_map : forall l s, rep2 l s -> List.length (ul_map l) = List.length (um_list s).
+  Proof.
+    intros l s R. pose proof (rep2_keys_map l s R) as Hk.
+    destruct R as (_ & _ & NDm & _ & _ & _ & _ & Hi & NDx).
+    rewrite <- (u_length_keys (ul_map l)), <- (u_length_keys (um_list s)).
+    apply Nat.le_antisymm; apply NoDup_incl_length; assumption.
+  Qed.
+
+  Lemma rep2_lookup : forall l s k, rep2 l s ->
+      match assoc k (um_list s) with
+      | Some (v0, e0) => exists n, In n (ul_list l) /\ cellr (ul_nodes l) (ul_map l) n (k, (v0, e0))
+      | None => assoc k (ul_map l) = None
+      end.
+  Proof.
+    intros l s k (_ & _ & _ & _ & _ & _ & F & Hi & _).
+    destruct (assoc k (um_list s)) as [[v0 e0]|] eqn:E.
+    - apply u_assoc_in_pair in E. destruct (F2_in_r _ _ _ _ F E) as (n & In & C). exists n. split; assumption.
+    - apply assoc_none. intro I. apply Hi in I. apply assoc_none in E. contradiction.
+  Qed.
+
+  Theorem rep2_ul_rep : forall l s, rep2 l s -> ul_rep l s.
+  Proof.
+    intros l s R. pose proof (rep2_len_map l s R) as Hlen.
+    destruct R as (T & NDl & NDm & NDn & Hiff & Hb & F & Hi & NDx).
+    unfold ul_rep. repeat (split; [assumption|]).
+    split; [rewrite Hlen; symmetry; eapply F2_len; exact F|].
+    split; [apply F2_cellr_entries; exact F|].
+    intros k v tp E.
+    assert (Ik : In k (keys (um_list s))) by (apply Hi; apply assoc_keys; rewrite E; discriminate).
+    unfold keys in Ik. apply in_map_iff in Ik. destruct Ik as (x & Ex & Ix).
+    destruct (F2_in_r _ _ _ _ F Ix) as (n & In & C1 & C2). subst k.
+    rewrite C2 in E. inversion E; subst.
+    exists n, {| tn_expire := snd (snd x); tn_keyed := fst x |}. repeat split; assumption.
+  Qed.
+
+  Lemma map_some_in : forall (f : nat -> option (K * (V * Z))) ns xs n x,
+      map f ns = map (@Some _) xs -> In n ns -> f n = Some x -> In x xs.
+  Proof.
+    intros f. induction ns as [|a r IH]; intros [|b xs'] n x E I Fx; simpl in *; try contradiction; try discriminate.
+    inversion E as [[E1 E2]]. destruct I as [Ea|I].
+    - subst a. left. congruence.
+    - right. eapply IH; eassumption.
+  Qed.
+
+  Lemma entry_inj : forall (f : nat -> option (K * (V * Z))) ns xs,
+      map f ns = map (@Some _) xs -> NoDup (keys xs) ->
+      forall n n' x x', In n ns -> In n' ns -> f n = Some x -> f n' = Some x' -> fst x = fst x' -> n = n'.
+  Proof.
+    intros f. induction ns as [|a r IH]; intros [|b xs'] E ND n n' x x' I I' Fx Fx' Ek;
+      simpl in *; try contradiction; try discriminate.
+    inversion E as [[E1 E2]]. inversion ND as [|y t NI ND']; subst.
+    destruct I as [Ea|I]; destruct I' as [Ea'|I'].
+    - congruence.
+    - subst a. exfalso. apply NI. assert (x = b) by congruence. subst x.
+      rewrite Ek. apply (in_map fst). eapply map_some_in; eassumption.
+    - subst a. exfalso. apply NI. assert (x' = b) by congruence. subst x'.
+      rewrite <- Ek. apply (in_map fst). eapply map_some_in; eassumption.
+    - eapply IH; eassumption.
+  Qed.
+
+  Lemma map_some_F2 : forall (f : nat -> option (K * (V * Z))) ns xs,
+      map f ns = map (@Some _) xs -> Forall2 (fun n x => f n = Some x) ns xs.
+  Proof.
+    intros f. induction ns as [|a r IH]; intros [|b xs'] E; simpl in *; try discriminate; constructor.
+    - inversion E. reflexivity.
+    - apply IH. inversion E. reflexivity.
+  Qed.
+
+  Theorem ul_rep_rep2 : forall l s, ul_rep l s -> NoDup (keys (um_list s)) -> rep2 l s.
+  Proof.
+    intros l s (T & NDl & NDm & NDn & Hiff & Hb & Hlen & Hmap & Hptr) NDx.
+    assert (Hcell : forall n x, In n (ul_list l) -> ul_entry l n = Some x -> cellr (ul_nodes l) (ul_map l) n x).
+    { intros n x In En. pose proof En as En0. unfold ul_entry in En.
+      destruct (assoc n (ul_nodes l)) as [t|] eqn:At; [|discriminate].
+      destruct (assoc (tn_keyed t) (ul_map l)) as [[v tp]|] eqn:Am; [|discriminate].
+      inversion En; subst x; clear En. simpl.
+      destruct (Hptr _ _ _ Am) as (n' & t' & Etp & In' & At' & Ek').
+      assert (En' : ul_entry l n' = Some (tn_keyed t, (v, tn_expire t'))).
+      { unfold ul_entry. rewrite At', Ek', Am. reflexivity. }
+      assert (n = n').
+      { eapply (entry_inj (ul_entry l)); [exact Hmap | exact NDx | exact In | exact In' | exact En0 | exact En' | reflexivity]. }
+      subst n'. split; simpl; [destruct t; exact At | rewrite Am, Etp; reflexivity]. }
+    unfold rep2. repeat (split; [assumption|]).
+    split; [|split; [|exact NDx]].
+    - eapply F2_weaken_in; [apply map_some_F2; exact Hmap|].
+      intros a b Ia _ Eab. apply Hcell; assumption.
+    - intros k Ik. apply assoc_keys in Ik.
+      destruct (assoc k (ul_map l)) as [[v tp]|] eqn:Am; [|congruence].
+      destruct (Hptr _ _ _ Am) as (n' & t' & Etp & In' & At' & Ek').
+      destruct (F2_in_l _ _ _ _ (map_some_F2 _ _ _ Hmap) In') as (x & Ix & Ex).
+      unfold ul_entry in Ex. rewrite At', Ek', Am in Ex. inversion Ex; subst x.
+      apply (in_map fst) in Ix. exact Ix.
+  Qed.
 End UmLitFacts.
